@@ -514,7 +514,7 @@ def replay_obj(case, suffix, kind="files"):
 # ---------------------------------------------------------------------------------------------
 PLAIN_D = ["a", "b", "sub", "ui", "pkg", "c[1]"]
 ODD_D = ["_p", "__pycache__", ".h", ".git", "_"]
-DOT_D = ["v1.0", "x.py", "a.", "a..b", "m.js", "_v.1"]
+DOT_D = ["v1.0", "x.py", "a.", "a..b", "m.js", "_v.1", "a.__init__"]
 PLAIN_F = ["a.py", "b.py", "m.py", "sub.py", "__init__.py", "c.js", "t.txt", "noext", "a.pyc"]
 ODD_F = ["_p.py", "__init__.js", "__main__.py", ".h.py", ".py", "_.py", "__init__.pyc", "__init__", "_x.js", ".hidden", "[x].py", "q?.py"]
 DOT_F = ["my.comp.py", "a..py", "ab..cd.py", "a.__init__.py", "a.b.js", "x.min.js", "z.", "__init__.x.py", "_my.comp.py", "a.__init__.b.py"]
